@@ -245,12 +245,17 @@ class World:
         ftpc = sw.software.get("ftp-client")
         port = inst and any(v is db for v in sw.port_protocol_mapping.values())
         svc = f"{db.operating_state.name},{db.health_state_actual.name}" if inst else "absent,absent"
-        fcs = "-" if ftpc is None else f"{ftpc.operating_state.name}:{ftpc.health_state_actual.name}"
+        fcs = "-" if ftpc is None else f"{ftpc.operating_state.name}:{ftpc.health_state_actual.name}:{1 if len(ftpc.connections) else 0}"
+        def dels(name):
+            fo = srv.file_system.get_folder(name)
+            return "" if fo is None else "/".join(f.health_status.name for f in fo.deleted_files.values() if f.name == "database.db")
         parts = [f"srv:{srv.operating_state.name},{svc},{fh(db.db_file)},"
                  f"{fh(srv.file_system.get_file('downloads', 'database.db'))},[{conns}],"
-                 f"ftpc={fcs},port={1 if port else 0},dl={1 if srv.file_system.get_folder('downloads') is not None else 0}"]
+                 f"ftpc={fcs},port={1 if port else 0},dl={1 if srv.file_system.get_folder('downloads') is not None else 0},"
+                 f"del={dels('database')};{dels('downloads')}"]
         ftps = bk.software_manager.software["ftp-server"]
-        parts.append(f"bk:{bk.operating_state.name},{ftps.operating_state.name},{fh(bk.file_system.get_file(str(db.uuid), 'database.db'))}")
+        orph = sum(1 for fo in bk.file_system.folders.values() if fo.name != str(db.uuid) and fo.get_file("database.db") is not None)
+        parts.append(f"bk:{bk.operating_state.name},{ftps.operating_state.name},{fh(bk.file_system.get_file(str(db.uuid), 'database.db'))},orph={orph}")
         for i, c in enumerate(self.clients):
             dc = self.dc(i)
             bot = c.software_manager.software.get("data-manipulation-bot")
@@ -341,11 +346,24 @@ class World:
                     rej = True
             else:
                 raise ValueError(f"unknown op {op}")
+        elif k == "fsr":
+            folder = "database" if op[1] == "db" else "downloads"
+            req = {"fcorrupt": ["file", folder, "database.db", "corrupt"], "frepair": ["file", folder, "database.db", "repair"],
+                   "frestore": ["file", folder, "database.db", "restore"], "fscan": ["file", folder, "database.db", "scan"],
+                   "fdelete": ["delete", "file", folder, "database.db"], "fundelete": ["restore", "file", folder, "database.db"],
+                   "focorrupt": ["folder", folder, "corrupt"], "forepair": ["folder", folder, "repair"],
+                   "fodelete": ["delete", "folder", folder], "fofdelete": ["folder", folder, "delete", "database.db"]}[op[2]]
+            res, rej = self.req(self.srv.apply_request(["file_system"] + req))
         elif k == "svcin":
             sm = self.srv.software_manager
             old = sm.software.get("database-service")
             try:
-                if len(op) > 1:
+                if len(op) > 3:
+                    from primaite.simulator.system.software import SoftwareHealthState
+                    sm.install(self.DatabaseService, self.DatabaseService.ConfigSchema(
+                        db_password=pw_str(op[1]), backup_server_ip=self.IPv4Address(BACKUP_IP) if op[2] else None,
+                        fixing_duration=op[3], starting_health_state=SoftwareHealthState[op[4]]))
+                elif len(op) > 1:
                     sm.install(self.DatabaseService, self.DatabaseService.ConfigSchema(
                         db_password=pw_str(op[1]), backup_server_ip=self.IPv4Address(BACKUP_IP) if op[2] else None))
                 else:
@@ -615,13 +633,14 @@ def align(impl: List[str], model: List[str]) -> List[str]:
 
 # ------------------------------------------------------------------------------------------ generation
 PROFILES = ["mixed", "mixed", "capacity", "damage", "faults", "lifecycle", "red", "saturation", "admin", "restore", "restore", "reinstall"]
-BASE_W = {"connect": 16, "hq": 18, "rq": 7, "rd": 3, "rj": 2, "hd": 6, "nc": 3, "nq": 5, "nd": 2, "ex": 5, "un": 2, "in": 2, "run": 3,
+FS_ACTS = ["fcorrupt", "frepair", "frestore", "fscan", "fdelete", "fundelete", "fundelete", "focorrupt", "forepair", "fodelete", "fofdelete"]
+BASE_W = {"fsr": 3, "connect": 16, "hq": 18, "rq": 7, "rd": 3, "rj": 2, "hd": 6, "nc": 3, "nq": 5, "nd": 2, "ex": 5, "un": 2, "in": 2, "run": 3,
           "close": 2, "cpw": 4, "rs": 3, "rsx": 2, "dm": 4, "dmp": 2, "svc": 10, "spw": 2, "backup": 4, "restore": 6, "fdel": 1, "fcor": 2,
           "frep": 2, "fodel": 1, "bkdel": 1, "adm": 2, "dl": 2, "svcin": 1, "co": 1, "pow": 4, "ftps": 2, "blk": 5, "tick": 12}
 PROFILE_W = {
     "mixed": {},
     "capacity": {"connect": 40, "hd": 14, "nd": 4, "svc": 6, "restore": 8, "nc": 6},
-    "damage": {"hq": 30, "backup": 8, "restore": 12, "fdel": 3, "fcor": 4, "frep": 4, "tick": 14, "svc": 12, "rs": 8},
+    "damage": {"fsr": 10, "hq": 30, "backup": 8, "restore": 12, "fdel": 3, "fcor": 4, "frep": 4, "tick": 14, "svc": 12, "rs": 8},
     "faults": {"pow": 12, "blk": 14, "ftps": 5, "tick": 20, "un": 4, "in": 4, "close": 4, "run": 5},
     "lifecycle": {"svc": 30, "tick": 20, "cpw": 8, "spw": 5},
     "red": {"rs": 12, "rsx": 8, "dm": 20, "dmp": 16, "rq": 10, "rd": 6, "rj": 5, "restore": 10, "tick": 14, "cpw": 6},
@@ -629,10 +648,10 @@ PROFILE_W = {
     "admin": {"adm": 22, "backup": 10, "restore": 14, "fodel": 4, "bkdel": 5, "fdel": 2, "tick": 14, "pow": 6, "hq": 14, "dl": 5, "co": 3},
     # repeated backup / damage / restore cycles with leftovers in downloads/, the backup path blocked in either direction,
     # the backup host off, its FTP server stopped, the FTP client restarting
-    "restore": {"backup": 14, "restore": 34, "dl": 18, "hq": 16, "blk": 9, "pow": 5, "ftps": 5, "bkdel": 4, "fcor": 3, "frep": 2,
+    "restore": {"fsr": 14, "backup": 14, "restore": 34, "dl": 12, "hq": 16, "blk": 9, "pow": 5, "ftps": 5, "bkdel": 4, "fcor": 3, "frep": 2,
                 "fdel": 2, "fodel": 1, "svc": 9, "tick": 12, "adm": 6, "connect": 8},
     # re-installing the database service / the FTP client at run time, the co-located client
-    "reinstall": {"svcin": 16, "fdel": 7, "fodel": 4, "adm": 14, "connect": 18, "hq": 14, "rq": 8, "backup": 8, "restore": 10,
+    "reinstall": {"fsr": 6, "svcin": 16, "fdel": 7, "fodel": 4, "adm": 14, "connect": 18, "hq": 14, "rq": 8, "backup": 8, "restore": 10,
                   "tick": 14, "co": 6, "bkdel": 2, "dl": 3},
 }
 # bandwidth (Mbit) of the two server-side links: the database file is 38.15 Mbit, so 30 never carries it, 40 once per
@@ -753,6 +772,8 @@ def next_op(rng: Rng, w: "World", case: dict, W: dict, total: int) -> list:
         return [k]
     if k == "rj":
         return ["rj", i, rng.choice(["notdict", "notype", "unknown"])]
+    if k == "fsr":
+        return ["fsr", rng.choice(["db", "db", "dl"]), rng.choice(FS_ACTS)]
     if k == "dl":
         return ["dl", "plant", rng.choice(["GOOD", "CORRUPT", "COMPROMISED"])] if rng.chance(1, 4) else ["dl", rng.choice(["del", "cor", "cor", "rep", "fodel"])]
     if k == "svcin":
@@ -762,7 +783,12 @@ def next_op(rng: Rng, w: "World", case: dict, W: dict, total: int) -> list:
         absent = w.srv.software_manager.software.get("database-service") is None
         if not absent and rng.chance(1, 6):
             return ["adm", "svcun"]     # a bare install goes through only while the service is uninstalled
-        return ["svcin"] if rng.chance(3, 4 if absent else 16) else ["svcin", rng.choice(pws), rng.chance(3, 4)]
+        if rng.chance(3, 4 if absent else 16):
+            return ["svcin"]
+        if rng.chance(1, 2):    # non-default configuration fields
+            return ["svcin", rng.choice(pws), rng.chance(3, 4), rng.choice([0, 1, 2, 3]),
+                    rng.choice(["GOOD", "GOOD", "COMPROMISED", "FIXING", "FIXING", "OVERWHELMED", "UNUSED"])]
+        return ["svcin", rng.choice(pws), rng.chance(3, 4)]
     if k == "co":
         if "database-client" not in w.srv.software_manager.software and not wild:
             return ["adm", "coin"]
@@ -779,7 +805,7 @@ def next_op(rng: Rng, w: "World", case: dict, W: dict, total: int) -> list:
             return ["adm", "ftpcin", rng.chance(1, 2)]
         if x < 9:
             return ["adm", "ftpc", rng.choice(["stop", "start", "stop", "start", "pause", "resume", "disable", "enable", "restart", "restart",
-                                               "fix", "scan"])]
+                                               "fix", "fix", "scan", "compromise", "compromise"])]
         if x < 12:
             return ["adm", "bkcfg", rng.chance(1, 2)]
         if x < 15:
@@ -1012,6 +1038,60 @@ def gen_cycles_and_run(rng: Rng):
                 e(["hq", rng.choice(act), "SELECT"])
             for op in undo:
                 e(list(op))
+            e(["restore"])
+            if act:
+                e(["hq", rng.choice(act), "SELECT"])
+    return case, sc.out
+
+
+def gen_fixrace_and_run(rng: Rng):
+    """A FIXING countdown racing a lifecycle change: damage, `fix` (countdown c), after j <= c ticks the service is stopped /
+    paused / disabled / restarted / its node powered off / (control) the FTP client stopped / nothing; ticks through the end of
+    the countdown (a completing fix calls restore_backup()), a direct restore while halted, the halt undone, restore again.
+    Every lifecycle state x countdown offset is drawn over the runs (histogram `fixrace:`)."""
+    def tweak(case):
+        case["bkcfg"] = True
+        case["fix"] = rng.choice([0, 1, 2, 3, 3])
+        case["restart"] = rng.choice([0, 1, 2])
+        case["clients"][0]["pw"] = case["srv_pw"]
+    sc = _Script(rng, "fixrace", tweak)
+    case = sc.case
+    with instrumented(sc.rec):
+        w = World(case, sc.rec)
+        e = lambda op: sc.emit(w, op)   # noqa: E731
+        e(["tick"] if rng.chance(1, 2) else ["backup"])
+        e(["connect", 0])
+        for _ in range(rng.range(1, 3)):
+            act = [j for j, h in enumerate(sc.rec.handles) if h.is_active]
+            e(["hq", rng.choice(act), rng.choice(["DELETE", "DELETE", "ENCRYPT"])] if act else ["fcor"])
+            if rng.chance(1, 3):
+                e(["svc", "compromise"])
+            e(["svc", "fix"])
+            j = rng.below(case["fix"] + 1)
+            for _ in range(j):
+                e(["tick"])
+            halt = rng.choice(["stop", "pause", "disable", "restart", "poweroff", "ftpcstop", "none", "stop", "pause"])
+            case.setdefault("fixrace", []).append([halt, j, case["fix"]])
+            undo = []
+            if halt in ("stop", "pause", "disable", "restart"):
+                e(["svc", halt])
+                undo = {"stop": [["svc", "start"]], "pause": [["svc", "resume"]], "disable": [["svc", "enable"], ["svc", "start"]],
+                        "restart": [["tick"]] * (case["restart"] + 1)}[halt]
+            elif halt == "poweroff":
+                e(["pow", 0, False])
+                undo = [["tick"]] * case["durs"]["sDown"] + [["pow", 0, True]] + [["tick"]] * (case["durs"]["sUp"] + 1)
+            elif halt == "ftpcstop":
+                e(["adm", "ftpc", "stop"])
+                undo = [["adm", "ftpc", "start"]]
+            for _ in range(case["fix"] - j + 1 + rng.below(2)):
+                e(["tick"])
+                if act and rng.chance(1, 3):
+                    e(["hq", rng.choice(act), "SELECT"])
+            e(["restore"])
+            for op in undo:
+                e(list(op))
+            if act:
+                e(["hq", rng.choice(act), "SELECT"])
             e(["restore"])
             if act:
                 e(["hq", rng.choice(act), "SELECT"])
